@@ -1,35 +1,51 @@
 /-
   Reference semantics of a promise tree: the textbook recursive depth-first, left-to-right search
   with a cut barrier and catch/throw, written as a recursive function returning a signal — not as
-  a stack machine.  `live` lists what is still pending on the path to the root, innermost first:
-  the ids of delay nodes (their remaining alternatives) and, offset by `catchBase`, the catch
-  frames.  A cut discards everything newer than its parent — choice points AND catch frames: in the
-  engine this is how a cut in the continuation of an exited catch/3 removes that catch (a cut inside
-  the goal of catch/3 itself can never do so, because Call gives the goal its own cut parent).
+  a stack machine.
+
+  `live` lists the ids of the delay nodes on the path to the root whose alternatives are still
+  pending (innermost first); it is only used to recognise well-scoped trees (every cut's parent is
+  a live ancestor, ids on a path are distinct and non-zero).
+
+  A signal that travels up carries the outermost cut executed so far that has not yet reached its
+  parent (`co`).  A cut discards everything newer than its parent — choice points AND catch frames:
+  in the engine this is how a cut in the continuation of an exited catch/3 removes that catch (a
+  cut inside the goal of catch/3 itself can never do so: Call gives the goal its own cut parent).
 -/
 import PrologVerif.Model.PTree
 namespace PrologVerif.DFS
 open PrologVerif.PTree
 
-def catchBase : Nat := 1000000
-
 inductive Sig where
-  | found                -- a success leaf was reached: the search stops
-  | failed               -- the subtree is exhausted
-  | cutTo (c : Nat)      -- exhausted, and the alternatives of every node up to and including c are discarded
-  | raised (e : Nat) (live : List Nat)  -- an error is travelling up; `live` = what was pending when it was raised
-  | illScoped            -- a cut whose parent is not a live ancestor (outside the spec's domain)
+  | found                               -- a success leaf was reached: the search stops
+  | exhausted (co : Option Nat)         -- the subtree is exhausted (co = some c: and everything up to c is discarded)
+  | raised (e : Nat) (co : Option Nat)  -- an error is travelling up
+  | illScoped                           -- outside the spec's domain (see above)
   deriving DecidableEq, Repr
+
+/-- the cut with parent `c` has been executed, then the rest of the subtree signalled `r` -/
+def afterCut (c : Nat) : Sig → Sig
+  | .exhausted none => .exhausted (some c)
+  | .raised e none => .raised e (some c)
+  | r => r    -- found; or a cut further out has been executed since (it subsumes this one)
+
+/-- a signal passes the delay node `id` on its way up -/
+def absorb (id : Nat) : Sig → Sig
+  | .exhausted (some c) => if c = id then .exhausted none else .exhausted (some c)
+  | .raised e (some c) => if c = id then .raised e none else .raised e (some c)
+  | r => r
 
 mutual
   def dfs : Nat → PT → List Nat → St → Option (Sig × St)
     | 0, _, _, _ => none
     | _ + 1, .ok, _, s => some (.found, s)
-    | _ + 1, .fail, _, s => some (.failed, s)
-    | _ + 1, .err e, live, s => some (.raised e live, s)
+    | _ + 1, .fail, _, s => some (.exhausted none, s)
+    | _ + 1, .err e, _, s => some (.raised e none, s)
     | n + 1, .log k x, live, s => dfs n x live { s with trace := k :: s.trace }
     | n + 1, .set f b x, live, s => dfs n x live { s with flags := (f, b) :: s.flags }
-    | n + 1, .delay id alts, live, s => dfsAlts n id alts (id :: live) { s with created := id :: s.created }
+    | n + 1, .delay id alts, live, s =>
+      if id = 0 ∨ live.contains id then some (.illScoped, s)
+      else dfsAlts n id alts (id :: live) { s with created := id :: s.created }
     | n + 1, .cut parent k, live, s =>
       let c := if s.created.contains parent then parent else 0
       if live.contains c then
@@ -37,35 +53,33 @@ mutual
         -- c itself stays as the barrier for later cuts of the same clause
         match dfs n k (live.dropWhile (· ≠ c)) s with
         | none => none
-        | some (.failed, s') => some (.cutTo c, s')
-        | some r => some r
+        | some (r, s') => some (afterCut c r, s')
       else some (.illScoped, s)
     | n + 1, .catch_ flag hs k, live, s =>
-      match dfs n k ((catchBase + flag) :: live) s with
+      match dfs n k live s with
       | none => none
-      | some (.raised e lv, s') =>
-        -- it intercepts iff its frame has not been cut away and its flag says "active" at the
-        -- moment the error arrives
-        if lv.contains (catchBase + flag) && s'.flag flag then
+      | some (.raised e none, s') =>
+        -- its frame has not been cut away; it intercepts iff its flag says "active" at the moment
+        -- the error arrives and the catcher matches
+        if s'.flag flag then
           match hs.find e with
           | some t => dfs n t live s'
-          | none => some (.raised e lv, s')
-        else some (.raised e lv, s')
+          | none => some (.raised e none, s')
+        else some (.raised e none, s')
       | some r => some r
     | n + 1, .rep k, live, s =>
       match dfs n k live s with
       | none => none
-      | some (.failed, s') => dfs n (.rep k) live s'
+      | some (.exhausted none, s') => dfs n (.rep k) live s'
       | some r => some r
   def dfsAlts : Nat → Nat → PTs → List Nat → St → Option (Sig × St)
     | 0, _, _, _, _ => none
-    | _ + 1, _, .nil, _, s => some (.failed, s)
+    | _ + 1, _, .nil, _, s => some (.exhausted none, s)
     | n + 1, id, .cons t ts, live, s =>
       match dfs n t live s with
       | none => none
-      | some (.failed, s') => dfsAlts n id ts live s'
-      | some (.cutTo c, s') => if c = id then some (.failed, s') else some (.cutTo c, s')
-      | some r => some r
+      | some (.exhausted none, s') => dfsAlts n id ts live s'
+      | some (r, s') => some (absorb id r, s')
 end
 
 end PrologVerif.DFS
